@@ -396,8 +396,8 @@ def c19(prop, tier, t0):
     for k2, v in (r.get("counters") or {}).items():
         if not k2.startswith("violations:"):
             cov["conformance_" + k2] = int(v)
-    cov["explanation"] = ("real DetectDeviceConfigChanges (instrumented) against a fake fsnotify: every sequence of <=2 (thorough 3) events over 10 kinds (writes to .toml / .TOML / other names incl. 'atoml' and 'toml', create, chmod, "
-                          "remove, rename) x prompt/late consumer x cancellation at an arbitrary moment, all interleavings up to the preemption bound; oracle: no notification without a preceding .toml write and never more than writes, "
+    cov["explanation"] = ("real DetectDeviceConfigChanges (instrumented) against a fake fsnotify: every sequence of <=2 (thorough 3) events over 12 kinds backed by real files (writes to .toml / .TOML / other names incl. 'atoml' and 'toml', a .toml emptied in place, create, chmod, "
+                          "remove, rename, kernel queue overflow) x prompt/late consumer x cancellation at an arbitrary moment, all interleavings up to the preemption bound; oracle: no notification without a preceding .toml write and never more than writes, "
                           "a notification follows the last .toml write, the stream closes and all watcher threads end after shutdown. Separately the fake's alphabet is checked against the real library and kernel.")
     return vlib.finish(prop, tier, "model_checking", m, cov, ENGB_ASSUME + [
         "the kernel's and fsnotify's own goroutine schedules are outside the scheduler; the real library is only exercised by the conformance pass (sentinel-delimited event lists per file operation, no timing oracle)",
